@@ -373,6 +373,22 @@ func c08(w *core.World, r *core.Report) {
 			r.Check(sl.HasCallTo("tree.Entry.getHighestPrecedenceValueOfBranch"), "CONSULTS", core.Site(pop, "value from the tree"), w.InstrPos(c), "content of the transaction")
 		}
 	}
+	// ---- BRANCH-PRIO-WHOLE
+	r.Rule("BRANCH-PRIO-WHOLE", 1, "the tree side of the case decision: getHighestPrecedenceValueOfBranch descends into the children whether or not the entry itself carries leaf variants - a case member that is a presence container has an own value AND children, and its priority is the best of both: the recursive call is not control-dependent on the entry's own variants.")
+	if f := w.Func("pkg/tree", "sharedEntryAttributes", "getHighestPrecedenceValueOfBranch"); f != nil {
+		for _, c := range core.CallsTo(f, "tree.Entry.getHighestPrecedenceValueOfBranch", "tree.sharedEntryAttributes.getHighestPrecedenceValueOfBranch") {
+			dep := false
+			for _, cond := range core.ControlConds(c) {
+				sl := core.DataSlice(f, []ssa.Value{cond})
+				for v := range sl.Values {
+					if vc, ok := v.(*ssa.Call); ok && strings.HasPrefix(core.CalleeKey(vc), "tree.LeafVariants.") {
+						dep = true
+					}
+				}
+			}
+			r.Check(!dep, "BRANCH-PRIO-WHOLE", core.Site(f, "children visited regardless of own variants"), w.InstrPos(c), "an entry with an own value (presence container) still has children whose priorities count for the case")
+		}
+	}
 	r.Rule("ORIENT", 4, "(shared with C01) the case with the numerically lowest priority wins.")
 	for _, t := range []struct{ recv, name string }{{"choicesCase", "GetLowestPriorityValue"}, {"choicesCase", "GetLowestPriorityValueOld"}, {"choiceCasesResolver", "getBestCaseName"}, {"choiceCasesResolver", "getOldBestCaseName"}} {
 		fn := w.Func("pkg/tree", t.recv, t.name)
@@ -390,6 +406,10 @@ func c10(w *core.World, r *core.Report) {
 		return
 	}
 	ruleActiveCaseAgree(w, r)
+
+	// ---- LEAFLIST-RECURSE (shared with C12)
+	r.Rule("LEAFLIST-RECURSE", 4, "(shared with C12) the value renderers of the encodings (GetJsonValue for JSON / JSON_IETF, TypedValueToXML and valueAsString for NETCONF, ToGNMITypedValue for gNMI proto) convert the elements of a leaf-list by calling THEMSELVES in the element loop: an element gets exactly the rendering a leaf of that kind gets in that encoding (module-qualified identityref in JSON_IETF, decimal64 as number text), so all encodings denote the same element values.")
+	ruleLeaflistRecurse(w, r, "LEAFLIST-RECURSE", map[string]bool{"GetJsonValue": true, "TypedValueToXML": true, "valueAsString": true, "ToGNMITypedValue": true})
 
 	// ---- ALL-DELETES-SENT
 	r.Rule("ALL-DELETES-SENT", 1, "RootEntry.ToProtoDeletes (the delete list of gNMI proto / JSON / JSON_IETF) hands on every delete that GetDeletes computed - the same set the XML renderer walks: the returned list is filled by one append inside the loop over the GetDeletes result, and no path through the loop body reaches the next element without that append or a return. A 'de-duplication' or 'covered by another delete' filter here makes the encodings disagree on what is deleted.")
@@ -805,7 +825,7 @@ func c10(w *core.World, r *core.Report) {
 		for _, c := range core.CallsTo(f, t.rec) {
 			dep := false
 			for _, cond := range core.ControlConds(c) {
-				if core.DataSlice(f, []ssa.Value{cond}).HasCallTo(t.own) {
+				if core.DataSlice(f, []ssa.Value{cond}).HasCallTo(strings.Split(t.own, "|")...) {
 					dep = true
 				}
 			}
